@@ -77,6 +77,9 @@ class Scheduler:  # pylint: disable=too-many-instance-attributes
         self.kill_plan = {}  # actor name -> step count at which it is killed (never resumed)
         self.prio = {}
         self.change_points = set()
+        self.frozen = None  # 'freeze' policy: the stalled actor (runs only when nobody else can)
+        self.freeze_count = 0
+        self.freeze_done = False
 
     def current_actor(self):
         return self.by_thread.get(threading.get_ident())
@@ -127,13 +130,33 @@ class Scheduler:  # pylint: disable=too-many-instance-attributes
                     return self.last  # let the same actor go on (a whole operation fits into the delayed window)
                 return rng.choice(eager)
             return rng.choice(runnable)
+        if pol[0] == 'freeze':
+            # a stalled process: the first actor of role pol[1] that reaches its pol[3]-th seam call of kind pol[2] is
+            # frozen right before ('before') or right after ('after') that call and only continues once every other
+            # actor has finished - so whole operations of the other clients fall into that one window
+            _, role, prefix, nth, when, sticky = pol
+            cand = [a for a in runnable if a is not self.frozen] or runnable
+            if self.last in cand and rng.random() < sticky:
+                actor = self.last
+            else:
+                actor = rng.choice(cand)
+            if not self.freeze_done and actor.role == role and actor.pending and actor.pending[0].startswith(prefix):
+                self.freeze_count += 1
+                if self.freeze_count >= nth:
+                    self.freeze_done = True
+                    self.frozen = actor
+                    if when == 'before':
+                        others = [a for a in runnable if a is not actor]
+                        if others:
+                            actor = self.last if (self.last in others and rng.random() < sticky) else rng.choice(others)
+            return actor
         if pol[0] == 'adversarial':
             # a reader is about to touch a file it located through the index or the loose folder: let the packer run
             packers = [a for a in runnable if a.role == 'packer']
             waiting = [
                 a
                 for a in self.actors
-                if a.role == 'reader' and a.state == 'parked' and a.pending and (a.pending[0].startswith('open:rb') or a.pending[0] == 'stat')
+                if a.role in ('reader', 'backup') and a.state == 'parked' and a.pending and (a.pending[0].startswith('open:rb') or a.pending[0] == 'stat')
             ]
             if packers and waiting and rng.random() < pol[1]:
                 return packers[0]
